@@ -62,6 +62,9 @@ def drive(sc):
         return EvaluatorResult(objectives=variables.sum(axis=1, keepdims=True))
 
     ee = EnsembleEvaluator(config, None, evaluator, manager())
+    # the judged evaluation is the second gradient evaluation of this evaluator (the first one at another point)
+    ee.calculate(np.array([q2f(v["x"]) for v in vs]) * 0.5, compute_functions=True, compute_gradients=True)
+    rows.clear()
     res = ee.calculate(np.array([q2f(v["x"]) for v in vs]), compute_functions=True, compute_gradients=True)
     gr = next(r for r in res if isinstance(r, GradientResults))
     rows.sort(key=lambda t: t[0])
